@@ -1,2 +1,73 @@
+//! Strict parser for the TypeScript subset emitted by the generator (DESIGN.md Appendix A).
+
 pub mod ast;
+pub mod lexer;
+pub mod parser;
+
 pub use ast::*;
+
+/// Stack the parser may use on the caller's thread (fits the 2 MiB default of spawned threads).
+const FAST_STACK: usize = 512 << 10;
+/// Stack of the fallback thread used for deeply nested input.
+const BIG_STACK: usize = 128 << 20;
+
+/// Runs `f` on the current thread; if the input nests so deeply that the stack budget runs out,
+/// runs it again on a thread with a big stack, so that only the logical depth limit of the
+/// parser (and never the build profile or the caller's stack) decides the verdict.
+fn run<T: Send>(src: &str, f: fn(&mut parser::Parser) -> Result<T, ParseError>) -> Result<T, ParseError> {
+    let mut p = parser::Parser::new(src, FAST_STACK);
+    let r = f(&mut p);
+    if !p.stack_exhausted {
+        return r;
+    }
+    let retried = std::thread::scope(|scope| {
+        std::thread::Builder::new()
+            .stack_size(BIG_STACK)
+            .spawn_scoped(scope, || f(&mut parser::Parser::new(src, BIG_STACK - (4 << 20))))
+            .ok()
+            .and_then(|h| h.join().ok())
+    });
+    retried.unwrap_or(r)
+}
+
+/// Parses a whole module (a generated `.ts` file).
+pub fn parse_module(src: &str) -> Result<Module, ParseError> {
+    run(src, |p| p.parse_module())
+}
+
+/// Parses a single type expression; the whole input must be consumed.
+pub fn parse_type(src: &str) -> Result<Type, ParseError> {
+    run(src, |p| p.parse_type_only())
+}
+
+/// Parses a single assignment-level expression; the whole input must be consumed.
+pub fn parse_expr(src: &str) -> Result<Expr, ParseError> {
+    run(src, |p| p.parse_expr_only())
+}
+
+/// ECMAScript reserved words plus the strict-mode / module ones.
+pub fn is_reserved_word(s: &str) -> bool {
+    matches!(
+        s,
+        "break" | "case" | "catch" | "class" | "const" | "continue" | "debugger" | "default" | "delete"
+            | "do" | "else" | "enum" | "export" | "extends" | "false" | "finally" | "for" | "function"
+            | "if" | "import" | "in" | "instanceof" | "new" | "null" | "return" | "super" | "switch"
+            | "this" | "throw" | "true" | "try" | "typeof" | "var" | "void" | "while" | "with" | "yield"
+            | "let" | "static" | "implements" | "interface" | "package" | "private" | "protected"
+            | "public" | "await"
+    )
+}
+
+/// IdentifierName lexical form (may be a reserved word); no unicode escapes.
+pub fn is_identifier_name(s: &str) -> bool {
+    let mut chars = s.chars();
+    chars.next().is_some_and(lexer::is_id_start) && chars.all(lexer::is_id_continue)
+}
+
+/// IdentifierName that is not reserved: usable as a declared name or identifier reference.
+pub fn is_legal_binding_identifier(s: &str) -> bool {
+    is_identifier_name(s) && !is_reserved_word(s)
+}
+
+#[cfg(test)]
+mod tests;
